@@ -24,6 +24,7 @@ import Pycdlib.Model.Cache
 import Pycdlib.Model.Extents
 import Pycdlib.Model.UdfNames
 import Pycdlib.Model.InPlace
+import Pycdlib.Model.VdOrder
 namespace Pycdlib
 
 def parseCps (s : String) : Option (List Nat) :=
@@ -169,6 +170,9 @@ def dispatchPure (toks : List String) : Option String :=
     match InPlace.plan i with
     | none => pure "refused"
     | some ws => pure (" ".intercalate (ws.map fun w => s!"{w.1}:{w.2}"))
+  | ["vdorder", p, b, sv, t] => do
+    let c : VdOrder.Counts := { pvds := ← p.toNat?, brs := ← b.toNat?, svds := ← sv.toNat?, vdsts := ← t.toNat? }
+    pure s!"{".".intercalate ((VdOrder.order c).map toString)} {if VdOrder.udfRoomForOneMore c then 1 else 0}"
   | ["udfident", stored, query] => do
     -- code points joined by '.'; answer: encoding, units of the identifier recorded for `stored`, and whether a lookup of
     -- `query` finds it
